@@ -17,6 +17,11 @@ fn server() -> &'static Server {
 }
 
 const CLIENT_TIMEOUT_MS: u64 = 700;
+/// Suspected violations are confirmed with a client time-out that no scheduling delay of a loaded
+/// machine reaches: the transport's retry logic does not depend on the length of the time-out, so a
+/// genuine violation reproduces, while "the server thread was starved and the client gave up first"
+/// does not.
+const CONFIRM_TIMEOUT_MS: u64 = 6000;
 
 #[derive(Clone, Debug)]
 struct Case {
@@ -152,13 +157,13 @@ struct Obs {
     log: Vec<crate::httpd::ReqLog>,
 }
 
-async fn fetch_case(id: String, c: &Case, body: Vec<u8>) -> Obs {
+async fn fetch_case(id: String, c: &Case, body: Vec<u8>, timeout_ms: u64) -> Obs {
     let srv = server();
     let path = format!("/c18/{id}");
     srv.add(&path, body, c.script.clone(), c.accept_ranges);
     let transport = HttpTransportBuilder::new()
         .tries(c.tries)
-        .timeout(Duration::from_millis(CLIENT_TIMEOUT_MS))
+        .timeout(Duration::from_millis(timeout_ms))
         .connect_timeout(Duration::from_millis(2000))
         .initial_backoff(Duration::from_millis(1))
         .max_backoff(Duration::from_millis(2))
@@ -182,7 +187,7 @@ async fn fetch_case(id: String, c: &Case, body: Vec<u8>) -> Obs {
             }
         }
     };
-    let timed = tokio::time::timeout(Duration::from_secs(30), run).await;
+    let timed = tokio::time::timeout(Duration::from_secs(30 + 6 * timeout_ms / 1000), run).await;
     if timed.is_err() {
         err = Some((TransportErrorKind::Other, "HARNESS-WATCHDOG".into()));
     }
@@ -325,7 +330,7 @@ fn run_batch(w: &mut Worker, cases: &[Case], first_index: u64) -> CaseOut {
         let futs = cases
             .iter()
             .enumerate()
-            .map(|(k, c)| fetch_case(format!("{}-{}", first_index, k), c, bodies[k].clone()));
+            .map(|(k, c)| fetch_case(format!("{}-{}", first_index, k), c, bodies[k].clone(), CLIENT_TIMEOUT_MS));
         futures::future::join_all(futs).await
     });
     let mut samples = Vec::new();
@@ -340,7 +345,7 @@ fn run_batch(w: &mut Worker, cases: &[Case], first_index: u64) -> CaseOut {
             out.inconclusive.extend(first.inconclusive);
             out.observations.extend(first.observations);
         } else {
-            let again = w.rt.block_on(fetch_case(format!("{}-{}-again", first_index, k), c, bodies[k].clone()));
+            let again = w.rt.block_on(fetch_case(format!("{}-{}-again", first_index, k), c, bodies[k].clone(), CONFIRM_TIMEOUT_MS));
             let mut second = CaseOut::default();
             judge(c, &bodies[k], &again, &mut second);
             out.evals += first.evals + second.evals;
@@ -423,7 +428,7 @@ pub fn run(cfg: &Cfg) -> i32 {
             level: "fault_enumeration",
             rule: "HttpTransport::fetch of the real crate against a scripted loopback HTTP/1.1 server (one thread per connection, request line and Range header logged): every script up to length 2 (quick) / 3 (thorough) over {200 full, 200 stalled after 0/1/mid/len-1 bytes, 500, 503, 403, 404, 410, 400, 416} — with Accept-Ranges each 200 item in a literal flavour (ignores Range) and one that honours Range with 206 — for a 1 KiB resource with tries rotating 1..4, plus seeded scripts up to tries+2 for sizes 0/1/1 KiB/64 KiB/256 KiB. Oracle over the yielded items and the server's request log: prefix/equality, requests <= tries, Range only after an announcement, nothing after 400/416/403/404/410, error kind, completion when the transient failures fit the retry budget. One evaluation = one fetch. Fingerprint = batch of (script, ranges, size, tries).",
             assumptions: vec![
-                "client timeout 400 ms; a time-out on a non-stalled response is inconclusive (machine load), never a violation".into(),
+                "client time-out 700 ms; a time-out on a non-stalled response is inconclusive (machine load), never a violation; every suspected violation is re-run alone with a 6 s time-out and reported only if the same signature reproduces (the retry logic does not depend on the length of the time-out, scheduling delays do)".into(),
                 "a stall after the complete body has been sent leaves the expectation unspecified".into(),
             ],
             required_hist: required,
